@@ -81,7 +81,8 @@ func (r C15Rule) text() string {
 	x := r.Local
 	switch r.Kind {
 	case "writer":
-		fmt.Fprintf(&b, "  %s = uniq(@name)\n  gate(@name)\n  chk(@name, %s)\n  E(@name)\n", x, x)
+		// the read goes through an arithmetic expression over the local
+		fmt.Fprintf(&b, "  %s = uniq(@name)\n  gate(@name)\n  chk(@name, %s * 1 + 0)\n  E(@name)\n", x, x)
 	case "writer3":
 		// the local is read as the argument of a three-level call written as a statement
 		fmt.Fprintf(&b, "  %s = uniq(@name)\n  gate(@name)\n  H3.In.Chk(@name, %s)\n  E(@name)\n", x, x)
@@ -131,7 +132,7 @@ func init() {
 			kinds := []string{"writer", "writer", "writer", "reader", "reader", "reader", "cond", "cond", "sharedw", "sharedr", "wpanic", "wpanic", "werror", "wretfail", "ranger", "ranger", "rangeinj", "seeinj", "objwriter", "objwriter", "writer3", "writer3"}
 			for i := 0; i < n; i++ {
 				c.Rules = append(c.Rules, C15Rule{Name: fmt.Sprintf("r%d", i), Sal: int64(uni(t, fmt.Sprintf("sal%d", i), -2, 4)),
-					Kind: kinds[uni(t, fmt.Sprintf("kind%d", i), 0, len(kinds)-1)], Local: []string{"x", "x", "y"}[uni(t, fmt.Sprintf("local%d", i), 0, 2)]})
+					Kind: kinds[uni(t, fmt.Sprintf("kind%d", i), 0, len(kinds)-1)], Local: []string{"x", "x", "y", "_1"}[uni(t, fmt.Sprintf("local%d", i), 0, 3)]})
 			}
 			c.Pool = rapid.Bool().Draw(t, "pool")
 			if c.Pool {
